@@ -36,7 +36,7 @@ class Cell:
                  extra_checks=(), backends=(("sat", 120),), object_bits=None,
                  kind="proof", bound=None, note="", flavour="debug",
                  expect_fail=(), closes_loops="", replay=None, group=None,
-                 no_checks=(), nondet_static=False, malloc_may_fail=False, optional=False, fallback=None):
+                 no_checks=(), nondet_static=False, malloc_may_fail=False, optional=False, fallback=None, trace_extra=()):
         self.id = id
         self.unit = unit
         self.entry = entry
@@ -61,6 +61,7 @@ class Cell:
         self.malloc_may_fail = malloc_may_fail
         self.optional = optional
         self.fallback = fallback
+        self.trace_extra = tuple(trace_extra)
 
 
 def _limits():
@@ -264,7 +265,7 @@ def _flatten(name, v, out):
         out[name] = {"name": v.get("name"), "data": v.get("data"), "binary": v.get("binary"), "type": v.get("type")}
 
 
-def trace_inputs(trace, prefixes=("in_", "verif_b_result", "verif_ghost")):
+def trace_inputs(trace, prefixes=("in_", "verif_b_result", "verif_ghost"), extra=()):
     """Last assignment to each harness input variable (name starts with a prefix), flattened to scalar
     leaves, as bit patterns where cbmc provides them."""
     import re as _re
@@ -273,6 +274,9 @@ def trace_inputs(trace, prefixes=("in_", "verif_b_result", "verif_ghost")):
         if st.get("stepType") != "assignment":
             continue
         lhs = _re.sub(r"\[(\d+)[lu]*\]", r"[\1]", st.get("lhs", ""))
+        if lhs in extra:
+            _flatten(lhs, st.get("value", {}), vals)
+            continue
         if not lhs.startswith(tuple(prefixes)):
             continue
         fn = (st.get("sourceLocation") or {}).get("function", "")
